@@ -6,6 +6,7 @@ import Mathlib.Tactic.Ring
 import Mathlib.Tactic.Linarith
 import Mathlib.Tactic.FieldSimp
 import Mathlib.Tactic.Positivity
+import Mathlib.Analysis.Real.Sqrt
 
 /-! # C03 — normalised scores stay within [-1, 1]; a planted template is recovered exactly
 (exact arithmetic over any linearly ordered field; rounding is Leg B's business) -/
@@ -690,6 +691,930 @@ theorem mcc_parts_cauchy_schwarz (sqrt : α → α) (hs : SqrtOk sqrt) (eps : α
   exact key _ rfl
 
 end flc
+
+
+/-! ## deepening 4: planted ⇒ 1, intensity invariances and zero-variance guards of the remaining score formulas -/
+
+section flcsph_formulas
+variable {α : Type} [Field α] [LinearOrder α] [IsStrictOrderedRing α]
+
+theorem SqrtOk.zero {sqrt : α → α} (hs : SqrtOk sqrt) : sqrt 0 = 0 :=
+  hs.unique 0 0 le_rfl le_rfl (by ring)
+
+/-- the window deviation after a target change `a ↦ c·a + d`, `c > 0`: `sqrt(A'/n) = c·sqrt(A/n)` -/
+theorem Win.affA_sd (W : Win α) (sqrt : α → α) (hs : SqrtOk sqrt) (c d : α) (hc : 0 < c)
+    (hw : ∀ k, inShape W.ms k = true → 0 ≤ W.w k) (hn : 0 < W.n) :
+    sqrt ((W.affA c d).A / (W.affA c d).n) = c * sqrt (W.A / W.n) := by
+  have hnn : W.n ≠ 0 := ne_of_gt hn
+  obtain ⟨_, hA2, _⟩ := W.target_affine c d hnn
+  have hn2 : (W.affA c d).n = W.n := rfl
+  have hAn : 0 ≤ W.A / W.n := div_nonneg (W.A_nonneg hw) (le_of_lt hn)
+  rw [hA2, hn2]
+  apply hs.unique
+  · have : c * c * W.A / W.n = c * c * (W.A / W.n) := by ring
+    rw [this]; positivity
+  · exact mul_nonneg (le_of_lt hc) (hs.nonneg _)
+  · have := hs.sq _ hAn
+    calc c * sqrt (W.A / W.n) * (c * sqrt (W.A / W.n)) = c * c * (sqrt (W.A / W.n) * sqrt (W.A / W.n)) := by ring
+      _ = c * c * W.A / W.n := by rw [this]; ring
+
+/-- the value of the code's FLCSphericalMask formula in closed form, in terms of the window sums; `G` is the rotated,
+once-standardised template.  Below the guard (`sd ≤ eps`) the code returns exactly 0. -/
+theorem flcSph_value (sqrt : α → α) (hs : SqrtOk sqrt) (eps : α)
+    (ms : List Nat) (t : List Int) (rot : (List Int → α) → (List Int → α)) (f f2 g G Wm : List Int → α)
+    (hf2 : ∀ x, f2 x = f x * f x)
+    (hG : G = rot (normT (ordOps sqrt eps) (normStats (ordOps sqrt eps) ms g Wm (maskSum (ordOps sqrt eps) ms Wm)) g Wm))
+    (hw : ∀ k, inShape ms k = true → 0 ≤ Wm (natsToInts k))
+    (hn : 0 < sumShape ms (fun k => Wm (natsToInts k)))
+    (hvar : 0 < (flcWin ms t f G Wm).B) :
+    scoreFLCSph (ordOps sqrt eps) (fun a b => corrSpec ms a b t) ms rot f f2 g Wm
+      = if eps < sqrt ((flcWin ms t f G Wm).A / (flcWin ms t f G Wm).n)
+        then ((flcWin ms t f G Wm).N / sqrt ((flcWin ms t f G Wm).B / (flcWin ms t f G Wm).n))
+              / (sqrt ((flcWin ms t f G Wm).A / (flcWin ms t f G Wm).n) * (flcWin ms t f G Wm).n)
+        else 0 := by
+  obtain ⟨e_n, e_st, e_num, e_sd, -, -, -, -, -, -⟩ := flc_core sqrt hs eps ms t f f2 G Wm hf2 hw hn hvar
+  have hG2 : rot (normT (ordOps sqrt eps) (normStats (ordOps sqrt eps) ms g Wm (flcWin ms t f G Wm).n) g Wm) = G := by
+    rw [← e_n]; exact hG.symm
+  unfold scoreFLCSph
+  simp only [flcWin] at hG2 ⊢
+  simp only [e_n, hG2, e_st, e_num, e_sd]
+  split_ifs with h1 h2 h2
+  · simp [ordOps]; ring
+  · exfalso; simp [ordOps] at h1; exact h2 h1
+  · exfalso; simp [ordOps] at h1; exact absurd h2 (not_lt.mpr h1)
+  · rfl
+
+/-- window level: what a target change `a ↦ c·a + d`, `c > 0`, does to the FLCSphericalMask closed form -/
+theorem Win.flcSph_closed_affine (W : Win α) (sqrt : α → α) (hs : SqrtOk sqrt) (eps c d : α) (hc : 0 < c)
+    (hw : ∀ k, inShape W.ms k = true → 0 ≤ W.w k) (hn : 0 < W.n)
+    (hg : eps < sqrt (W.A / W.n) ↔ eps < c * sqrt (W.A / W.n)) :
+    (if eps < sqrt ((W.affA c d).A / (W.affA c d).n)
+      then ((W.affA c d).N / sqrt ((W.affA c d).B / (W.affA c d).n)) / (sqrt ((W.affA c d).A / (W.affA c d).n) * (W.affA c d).n)
+      else 0)
+      = (if eps < sqrt (W.A / W.n) then (W.N / sqrt (W.B / W.n)) / (sqrt (W.A / W.n) * W.n) else 0) := by
+  have hnn : W.n ≠ 0 := ne_of_gt hn
+  obtain ⟨hN2, _, hB2⟩ := W.target_affine c d hnn
+  have hn2 : (W.affA c d).n = W.n := rfl
+  rw [W.affA_sd sqrt hs c d hc hw hn, hN2, hB2, hn2]
+  have hcne : c ≠ 0 := ne_of_gt hc
+  by_cases h : eps < sqrt (W.A / W.n)
+  · rw [if_pos h, if_pos (hg.mp h)]
+    by_cases h0 : sqrt (W.A / W.n) = 0
+    · simp [h0]
+    · by_cases h1 : sqrt (W.B / W.n) = 0
+      · simp [h1]
+      · field_simp
+  · rw [if_neg h, if_neg (fun h' => h (hg.mpr h'))]
+
+/-- **Intensity invariance of the FLCSphericalMask formula**: replacing the target by `c·f + d`, `c > 0`, leaves the
+value of the code's formula unchanged for every translation, template, rotation and non-negative mask, provided the
+window is on the same side of the code's absolute guard before and after (`eps < sd ↔ eps < c·sd`; both below: both
+values are 0, both above: the normalised values agree). -/
+theorem flcSph_formula_target_affine_invariant (sqrt : α → α) (hs : SqrtOk sqrt) (eps : α)
+    (ms : List Nat) (t : List Int) (rot : (List Int → α) → (List Int → α)) (f g G Wm : List Int → α) (c d : α) (hc : 0 < c)
+    (hG : G = rot (normT (ordOps sqrt eps) (normStats (ordOps sqrt eps) ms g Wm (maskSum (ordOps sqrt eps) ms Wm)) g Wm))
+    (hw : ∀ k, inShape ms k = true → 0 ≤ Wm (natsToInts k))
+    (hn : 0 < sumShape ms (fun k => Wm (natsToInts k)))
+    (hvar : 0 < (flcWin ms t f G Wm).B)
+    (hg : eps < sqrt ((flcWin ms t f G Wm).A / (flcWin ms t f G Wm).n)
+        ↔ eps < c * sqrt ((flcWin ms t f G Wm).A / (flcWin ms t f G Wm).n)) :
+    scoreFLCSph (ordOps sqrt eps) (fun a b => corrSpec ms a b t) ms rot (fun x => c * f x + d)
+        (fun x => (c * f x + d) * (c * f x + d)) g Wm
+      = scoreFLCSph (ordOps sqrt eps) (fun a b => corrSpec ms a b t) ms rot f (fun x => f x * f x) g Wm := by
+  have hnn : (flcWin ms t f G Wm).n ≠ 0 := ne_of_gt hn
+  have haff := (flcWin ms t f G Wm).target_affine c d hnn
+  have hW' : flcWin ms t (fun x => c * f x + d) G Wm = (flcWin ms t f G Wm).affA c d := rfl
+  have hvar' : 0 < (flcWin ms t (fun x => c * f x + d) G Wm).B := by rw [hW', haff.2.2]; exact hvar
+  rw [flcSph_value sqrt hs eps ms t rot f _ g G Wm (fun _ => rfl) hG hw hn hvar,
+      flcSph_value sqrt hs eps ms t rot (fun x => c * f x + d) _ g G Wm (fun _ => rfl) hG hw hn hvar', hW']
+  exact Win.flcSph_closed_affine (flcWin ms t f G Wm) sqrt hs eps c d hc hw hn hg
+
+/-- positivity of the template deviation from `0 < B` -/
+theorem Win.sigma_pos (W : Win α) (sqrt : α → α) (hs : SqrtOk sqrt)
+    (hw : ∀ k, inShape W.ms k = true → 0 ≤ W.w k) (hn : 0 < W.n) (hvar : 0 < W.B) :
+    0 < sqrt (W.B / W.n) ∧ sqrt (W.B / W.n) * sqrt (W.B / W.n) = W.B / W.n := by
+  have hBn : 0 ≤ W.B / W.n := div_nonneg (W.B_nonneg hw) (le_of_lt hn)
+  have hσσ : sqrt (W.B / W.n) * sqrt (W.B / W.n) = W.B / W.n := hs.sq _ hBn
+  refine ⟨?_, hσσ⟩
+  rcases (hs.nonneg (W.B / W.n)).lt_or_eq with h | h
+  · exact h
+  · exfalso
+    have : W.B / W.n = 0 := by rw [← hσσ, ← h]; ring
+    rcases div_eq_zero_iff.mp this with h' | h'
+    · rw [h'] at hvar; exact lt_irrefl _ hvar
+    · exact (ne_of_gt hn) h'
+
+/-- **A planted copy scores exactly 1 in the code's FLCSphericalMask formula**: when the target window at translation
+`t` equals the rotated standardised template wherever the mask is non-zero and the window is above the guard
+(`eps < sd`), the formula's value is 1 — and by `flcSph_formula_sq_le_one` no other value of the map exceeds it. -/
+theorem flcSph_formula_planted_eq_one (sqrt : α → α) (hs : SqrtOk sqrt) (eps : α)
+    (ms : List Nat) (t : List Int) (rot : (List Int → α) → (List Int → α)) (f g G Wm : List Int → α)
+    (hG : G = rot (normT (ordOps sqrt eps) (normStats (ordOps sqrt eps) ms g Wm (maskSum (ordOps sqrt eps) ms Wm)) g Wm))
+    (hw : ∀ k, inShape ms k = true → 0 ≤ Wm (natsToInts k))
+    (hn : 0 < sumShape ms (fun k => Wm (natsToInts k)))
+    (hvar : 0 < (flcWin ms t f G Wm).B)
+    (hplant : ∀ k, inShape ms k = true → Wm (natsToInts k) * f (specIdx ms t k) = Wm (natsToInts k) * G (natsToInts k))
+    (hg : eps < sqrt ((flcWin ms t f G Wm).B / (flcWin ms t f G Wm).n)) :
+    scoreFLCSph (ordOps sqrt eps) (fun a b => corrSpec ms a b t) ms rot f (fun x => f x * f x) g Wm = 1 := by
+  rw [flcSph_value sqrt hs eps ms t rot f _ g G Wm (fun _ => rfl) hG hw hn hvar]
+  obtain ⟨hσpos, hσσ⟩ := (flcWin ms t f G Wm).sigma_pos sqrt hs hw hn hvar
+  obtain ⟨_, hAB, h1⟩ := (flcWin ms t f G Wm).planted_eq_one hplant hn _ hσpos hσσ
+  rw [hAB, if_pos hg]
+  exact h1
+
+/-- **zero-variance windows, FLC**: a target window that is constant (or empty: all zeros) under the mask gives the
+code's FLC formula the value exactly 0 — in whichever branch of the guard it lands (numerator `Σ w a (h−μ)` vanishes). -/
+theorem flc_formula_constant_window_zero (sqrt : α → α) (hs : SqrtOk sqrt) (eps : α)
+    (ms : List Nat) (t : List Int) (f f2 G Wm : List Int → α) (hf2 : ∀ x, f2 x = f x * f x)
+    (hw : ∀ k, inShape ms k = true → 0 ≤ Wm (natsToInts k))
+    (hn : 0 < sumShape ms (fun k => Wm (natsToInts k)))
+    (hvar : 0 < (flcWin ms t f G Wm).B)
+    (c : α) (hc : ∀ k, inShape ms k = true → f (specIdx ms t k) = c) :
+    scoreFLC (ordOps sqrt eps) (fun a b => corrSpec ms a b t) ms f f2 G Wm = 0 := by
+  rw [flc_value sqrt hs eps ms t f f2 G Wm hf2 hw hn hvar]
+  have h0 := ((flcWin ms t f G Wm).constant_window c hc (ne_of_gt hn)).2
+  simp only [flcWin] at h0
+  rw [h0]; simp
+
+/-- **zero-variance windows, FLCSphericalMask**: the same window gives exactly 0 there as well; and with `0 < eps` it
+is the guard branch that returns it (`sd = 0 ≤ eps`). -/
+theorem flcSph_formula_constant_window_zero (sqrt : α → α) (hs : SqrtOk sqrt) (eps : α)
+    (ms : List Nat) (t : List Int) (rot : (List Int → α) → (List Int → α)) (f f2 g G Wm : List Int → α)
+    (hf2 : ∀ x, f2 x = f x * f x)
+    (hG : G = rot (normT (ordOps sqrt eps) (normStats (ordOps sqrt eps) ms g Wm (maskSum (ordOps sqrt eps) ms Wm)) g Wm))
+    (hw : ∀ k, inShape ms k = true → 0 ≤ Wm (natsToInts k))
+    (hn : 0 < sumShape ms (fun k => Wm (natsToInts k)))
+    (hvar : 0 < (flcWin ms t f G Wm).B)
+    (c : α) (hc : ∀ k, inShape ms k = true → f (specIdx ms t k) = c) :
+    scoreFLCSph (ordOps sqrt eps) (fun a b => corrSpec ms a b t) ms rot f f2 g Wm = 0
+      ∧ sqrt ((flcWin ms t f G Wm).A / (flcWin ms t f G Wm).n) = 0 := by
+  have h0 := (flcWin ms t f G Wm).constant_window c hc (ne_of_gt hn)
+  constructor
+  · rw [flcSph_value sqrt hs eps ms t rot f f2 g G Wm hf2 hG hw hn hvar, h0.2]; simp
+  · rw [h0.1]; simp [hs.zero]
+
+/-- **guard branch of FLC, end to end**: where the window deviation is below the code's `eps`, the value the formula
+returns (numerator divided by `n` only) is smaller than `eps` in absolute value — finite, tiny, no division by ~0. -/
+theorem flc_formula_guard_branch_lt_eps (sqrt : α → α) (hs : SqrtOk sqrt) (eps : α)
+    (ms : List Nat) (t : List Int) (f f2 G Wm : List Int → α) (hf2 : ∀ x, f2 x = f x * f x)
+    (hw : ∀ k, inShape ms k = true → 0 ≤ Wm (natsToInts k))
+    (hn : 0 < sumShape ms (fun k => Wm (natsToInts k)))
+    (hvar : 0 < (flcWin ms t f G Wm).B)
+    (hg : sqrt ((flcWin ms t f G Wm).A / (flcWin ms t f G Wm).n) < eps) :
+    (scoreFLC (ordOps sqrt eps) (fun a b => corrSpec ms a b t) ms f f2 G Wm) ^ 2 < eps ^ 2 := by
+  rw [flc_value sqrt hs eps ms t f f2 G Wm hf2 hw hn hvar]
+  obtain ⟨hσpos, hσσ⟩ := (flcWin ms t f G Wm).sigma_pos sqrt hs hw hn hvar
+  have hAn : 0 ≤ (flcWin ms t f G Wm).A / (flcWin ms t f G Wm).n :=
+    div_nonneg ((flcWin ms t f G Wm).A_nonneg hw) (le_of_lt hn)
+  have hb := (flcWin ms t f G Wm).guard_branch_small hw hn _ _ hσpos (hs.nonneg _) hσσ (hs.sq _ hAn)
+  simp only [flcWin] at hb hg ⊢
+  rw [if_pos hg, one_mul]
+  have h0 := hs.nonneg ((Win.mk ms (fun k => Wm (natsToInts k)) (fun k => f (specIdx ms t k)) (fun k => G (natsToInts k))).A
+      / (Win.mk ms (fun k => Wm (natsToInts k)) (fun k => f (specIdx ms t k)) (fun k => G (natsToInts k))).n)
+  nlinarith
+
+end flcsph_formulas
+
+section template_invariance
+variable {α : Type} [Field α] [LinearOrder α] [IsStrictOrderedRing α]
+
+theorem max0_scale (sqrt : α → α) (eps c v : α) (hc : 0 < c) :
+    (ordOps sqrt eps).max0 (c * c * v) = c * c * (ordOps sqrt eps).max0 v := by
+  have hcc : 0 < c * c := mul_pos hc hc
+  by_cases h : v < 0
+  · have : c * c * v < 0 := mul_neg_of_pos_of_neg hcc h
+    simp [Ops.max0, ordOps, h, this]
+  · have : ¬ c * c * v < 0 := not_lt.mpr (mul_nonneg (le_of_lt hcc) (not_lt.mp h))
+    simp [Ops.max0, ordOps, h, this]
+
+omit [IsStrictOrderedRing α] in
+theorem max0_nonneg (sqrt : α → α) (eps v : α) : 0 ≤ (ordOps sqrt eps).max0 v := by
+  by_cases h : v < 0
+  · simp [Ops.max0, ordOps, h]
+  · simp [Ops.max0, ordOps, h]; exact not_lt.mp h
+
+theorem SqrtOk.scale {sqrt : α → α} (hs : SqrtOk sqrt) (c m : α) (hc : 0 < c) (hm : 0 ≤ m) :
+    sqrt (c * c * m) = c * sqrt m := by
+  apply hs.unique
+  · positivity
+  · exact mul_nonneg (le_of_lt hc) (hs.nonneg _)
+  · have := hs.sq m hm
+    calc c * sqrt m * (c * sqrt m) = c * c * (sqrt m * sqrt m) := by ring
+      _ = c * c * m := by rw [this]
+
+/-- the statistics `normalize_template` computes, after `g ↦ c·g + d` (`c > 0`): mean `c·μ + d`, deviation `c·σ` -/
+theorem normStats_affine (sqrt : α → α) (hs : SqrtOk sqrt) (eps : α) (ms : List Nat) (g w : List Int → α)
+    (c d : α) (hc : 0 < c) (hn : sumShape ms (fun k => w (natsToInts k)) ≠ 0) :
+    normStats (ordOps sqrt eps) ms (fun x => c * g x + d) w (maskSum (ordOps sqrt eps) ms w)
+      = (c * (normStats (ordOps sqrt eps) ms g w (maskSum (ordOps sqrt eps) ms w)).1 + d,
+         c * (normStats (ordOps sqrt eps) ms g w (maskSum (ordOps sqrt eps) ms w)).2) := by
+  have e_n : maskSum (ordOps sqrt eps) ms w = sumShape ms (fun k => w (natsToInts k)) := by
+    unfold maskSum; rw [boxSum_ord]
+  set n := sumShape ms (fun k => w (natsToInts k)) with hnd
+  set S1 := sumShape ms (fun k => g (natsToInts k) * w (natsToInts k)) with hS1
+  set S2 := sumShape ms (fun k => g (natsToInts k) * g (natsToInts k) * w (natsToInts k)) with hS2
+  have a1 : sumShape ms (fun k => (c * g (natsToInts k) + d) * w (natsToInts k)) = c * S1 + d * n := by
+    have e : (fun k => (c * g (natsToInts k) + d) * w (natsToInts k))
+        = fun k => c * (g (natsToInts k) * w (natsToInts k)) + d * w (natsToInts k) := by funext k; ring
+    rw [e, sumShape_add, sumShape_mul_left, sumShape_mul_left]
+  have a2 : sumShape ms (fun k => (c * g (natsToInts k) + d) * (c * g (natsToInts k) + d) * w (natsToInts k))
+      = c * c * S2 + (2 * c * d * S1 + d * d * n) := by
+    have e : (fun k => (c * g (natsToInts k) + d) * (c * g (natsToInts k) + d) * w (natsToInts k))
+        = fun k => (c * c) * (g (natsToInts k) * g (natsToInts k) * w (natsToInts k))
+            + ((2 * c * d) * (g (natsToInts k) * w (natsToInts k)) + (d * d) * w (natsToInts k)) := by funext k; ring
+    rw [e, sumShape_add, sumShape_add, sumShape_mul_left, sumShape_mul_left, sumShape_mul_left]
+  unfold normStats
+  rw [e_n]
+  simp only [boxSum_ord]
+  simp only [ordOps, Ops.sq] at *
+  rw [a1, a2]
+  have hv : (c * c * S2 + (2 * c * d * S1 + d * d * n)) / n - (c * S1 + d * n) / n * ((c * S1 + d * n) / n)
+      = c * c * (S2 / n - S1 / n * (S1 / n)) := by field_simp; ring
+  rw [hv]
+  have hm := max0_scale sqrt eps c (S2 / n - S1 / n * (S1 / n)) hc
+  simp only [ordOps] at hm
+  rw [hm, hs.scale _ _ hc (by have := max0_nonneg sqrt eps (S2 / n - S1 / n * (S1 / n)); simpa [ordOps] using this)]
+  congr 1
+  field_simp
+  rfl
+
+/-- **the standardised template is invariant under `g ↦ c·g + d`, `c > 0`** (`normalize_template` as coded: mean and
+`sqrt(max(E[g²] − E[g]², 0))` under the mask) — for every mask of non-zero mass, whatever the template (also one without
+spread: both sides are then `x/0 = 0`). -/
+theorem normT_affine (sqrt : α → α) (hs : SqrtOk sqrt) (eps : α) (ms : List Nat) (g w : List Int → α)
+    (c d : α) (hc : 0 < c) (hn : sumShape ms (fun k => w (natsToInts k)) ≠ 0) :
+    normT (ordOps sqrt eps) (normStats (ordOps sqrt eps) ms (fun x => c * g x + d) w (maskSum (ordOps sqrt eps) ms w))
+        (fun x => c * g x + d) w
+      = normT (ordOps sqrt eps) (normStats (ordOps sqrt eps) ms g w (maskSum (ordOps sqrt eps) ms w)) g w := by
+  rw [normStats_affine sqrt hs eps ms g w c d hc hn]
+  generalize normStats (ordOps sqrt eps) ms g w (maskSum (ordOps sqrt eps) ms w) = st
+  funext x
+  simp only [normT, normApply, ordOps]
+  have hcne : c ≠ 0 := ne_of_gt hc
+  by_cases h : st.2 = 0
+  · simp [h]
+  · field_simp
+    ring
+
+/-- **template scale/offset invariance of the FLC formula**, for every correlation functional `C` (so for the spec sums
+and for the FFT pipeline alike), every target, mask of non-zero mass and `c > 0`: no guard condition is needed. -/
+theorem flc_formula_template_affine_invariant (sqrt : α → α) (hs : SqrtOk sqrt) (eps : α)
+    (C : (List Int → α) → (List Int → α) → α) (ms : List Nat) (f f2 G W : List Int → α)
+    (c d : α) (hc : 0 < c) (hn : sumShape ms (fun k => W (natsToInts k)) ≠ 0) :
+    scoreFLC (ordOps sqrt eps) C ms f f2 (fun x => c * G x + d) W = scoreFLC (ordOps sqrt eps) C ms f f2 G W := by
+  simp only [scoreFLC, normT_affine sqrt hs eps ms G W c d hc hn]
+
+/-- the same for **FLCSphericalMask** (the template enters only through its standardised form) -/
+theorem flcSph_formula_template_affine_invariant (sqrt : α → α) (hs : SqrtOk sqrt) (eps : α)
+    (C : (List Int → α) → (List Int → α) → α) (ms : List Nat) (rot : (List Int → α) → (List Int → α))
+    (f f2 g w : List Int → α) (c d : α) (hc : 0 < c) (hn : sumShape ms (fun k => w (natsToInts k)) ≠ 0) :
+    scoreFLCSph (ordOps sqrt eps) C ms rot f f2 (fun x => c * g x + d) w
+      = scoreFLCSph (ordOps sqrt eps) C ms rot f f2 g w := by
+  simp only [scoreFLCSph, normT_affine sqrt hs eps ms g w c d hc hn]
+
+/-- the same for **CORR / CAM** (any template mask, any rotation — also interpolating ones) -/
+theorem corr_formula_template_affine_invariant (sqrt : α → α) (hs : SqrtOk sqrt) (eps : α)
+    (C : (List Int → α) → (List Int → α) → α) (ms : List Nat) (rot : (List Int → α) → (List Int → α))
+    (f f2 g w : List Int → α) (c d : α) (hc : 0 < c) (hn : sumShape ms (fun k => w (natsToInts k)) ≠ 0) :
+    scoreCORR (ordOps sqrt eps) C ms rot f f2 (fun x => c * g x + d) w
+      = scoreCORR (ordOps sqrt eps) C ms rot f f2 g w := by
+  simp only [scoreCORR, normT_affine sqrt hs eps ms g w c d hc hn]
+
+/-- the same for **MCC**: numerator, denominator and overlap are all unchanged, hence so is the final value -/
+theorem mcc_formula_template_affine_invariant (sqrt : α → α) (hs : SqrtOk sqrt) (eps : α)
+    (C : (List Int → α) → (List Int → α) → α) (ms : List Nat) (fm fm2 tm G W : List Int → α)
+    (c d : α) (hc : 0 < c) (hn : sumShape ms (fun k => W (natsToInts k)) ≠ 0) :
+    mccParts (ordOps sqrt eps) C ms fm fm2 tm (fun x => c * G x + d) W = mccParts (ordOps sqrt eps) C ms fm fm2 tm G W := by
+  simp only [mccParts, normT_affine sqrt hs eps ms G W c d hc hn]
+
+end template_invariance
+
+section mcc_formula
+variable {α : Type} [Field α] [LinearOrder α] [IsStrictOrderedRing α]
+
+/-- the final step of `mcc_scoring` when `num² ≤ den²` and the denominator is above its tolerance: neither the
+`den ≤ tol → 1` replacement nor the clip changes anything, the value is `num/den` (or 0 under the overlap threshold) -/
+theorem mccFinish_eq_ratio (sqrt : α → α) (eps thousand ratio num den ov maxDen maxOv : α)
+    (h : num ^ 2 ≤ den ^ 2) (hd : 0 ≤ den) (htol : thousand * eps * maxDen < den) :
+    mccFinish (ordOps sqrt eps) thousand ratio (num, den, ov) maxDen maxOv
+      = if ov < ratio * maxOv then 0 else num / den := by
+  have hb : -1 ≤ num / den ∧ num / den ≤ 1 := by
+    rcases hd.lt_or_eq with hp | hz
+    · have h1 : -den ≤ num := by by_contra hc; nlinarith [not_le.mp hc]
+      have h2 : num ≤ den := by by_contra hc; nlinarith [not_le.mp hc]
+      constructor
+      · rw [le_div_iff₀ hp]; linarith
+      · rw [div_le_iff₀ hp]; linarith
+    · rw [← hz]; simp
+  have e1 : ¬ (num / den < 0 - 1) := by linarith [hb.1]
+  have e2 : ¬ (1 < num / den) := by linarith [hb.2]
+  simp only [mccFinish, ordOps, decide_eq_true_eq, if_pos htol, if_neg e1, if_neg e2]
+
+omit [IsStrictOrderedRing α] in
+/-- below the overlap threshold the code returns exactly 0, whatever numerator and denominator are -/
+theorem mccFinish_low_overlap_zero (sqrt : α → α) (eps thousand ratio : α) (parts : α × α × α) (maxDen maxOv : α)
+    (hov : parts.2.2 < ratio * maxOv) :
+    mccFinish (ordOps sqrt eps) thousand ratio parts maxDen maxOv = 0 := by
+  obtain ⟨num, den, ov⟩ := parts
+  simp only [mccFinish, ordOps, decide_eq_true_eq]
+  rw [if_pos hov]
+
+/-- the low-denominator guard as coded (`temp2[temp2 <= tol] = 1`): the value is the clipped numerator — with
+`num² ≤ den²` and `0 ≤ den ≤ tol` it is bounded by `tol` as well as by 1 -/
+theorem mccFinish_low_denominator (sqrt : α → α) (eps thousand ratio num den ov maxDen maxOv : α)
+    (h : num ^ 2 ≤ den ^ 2) (hd : 0 ≤ den) (htol : ¬ thousand * eps * maxDen < den) :
+    (mccFinish (ordOps sqrt eps) thousand ratio (num, den, ov) maxDen maxOv) ^ 2 ≤ (thousand * eps * maxDen) ^ 2 := by
+  have hT : den ≤ thousand * eps * maxDen := not_lt.mp htol
+  have hT0 : 0 ≤ thousand * eps * maxDen := le_trans hd hT
+  have h1 : -den ≤ num := by by_contra hc; nlinarith [not_le.mp hc]
+  have h2 : num ≤ den := by by_contra hc; nlinarith [not_le.mp hc]
+  simp only [mccFinish, ordOps, decide_eq_true_eq]
+  rw [if_neg htol]
+  split_ifs <;> nlinarith
+
+/-- **MCC end to end, every input**: the value `mcc_scoring` reports (overlap threshold, denominator tolerance, clip —
+`mccFinish` applied to the per-voxel parts `mccParts` of the code) lies in [-1, 1] for all targets, target masks,
+templates, template masks, translations, thresholds and map maxima. -/
+theorem mcc_formula_abs_le_one (sqrt : α → α) (eps thousand ratio : α)
+    (C : (List Int → α) → (List Int → α) → α) (ms : List Nat) (fm fm2 tm G W : List Int → α) (maxDen maxOv : α) :
+    -1 ≤ mccFinish (ordOps sqrt eps) thousand ratio (mccParts (ordOps sqrt eps) C ms fm fm2 tm G W) maxDen maxOv ∧
+    mccFinish (ordOps sqrt eps) thousand ratio (mccParts (ordOps sqrt eps) C ms fm fm2 tm G W) maxDen maxOv ≤ 1 :=
+  mcc_clipped sqrt eps thousand ratio _ maxDen maxOv
+
+/-- squared form of `mcc_formula_abs_le_one` -/
+theorem mcc_formula_sq_le_one (sqrt : α → α) (eps thousand ratio : α)
+    (C : (List Int → α) → (List Int → α) → α) (ms : List Nat) (fm fm2 tm G W : List Int → α) (maxDen maxOv : α) :
+    (mccFinish (ordOps sqrt eps) thousand ratio (mccParts (ordOps sqrt eps) C ms fm fm2 tm G W) maxDen maxOv) ^ 2 ≤ 1 := by
+  obtain ⟨h1, h2⟩ := mcc_formula_abs_le_one sqrt eps thousand ratio C ms fm fm2 tm G W maxDen maxOv
+  nlinarith
+
+/-- **MCC end to end, the clip is inactive**: for a binary template mask, a non-negative target mask, an overlap above
+`eps` and a denominator above the code's tolerance, the reported value is the plain quotient `num/den` of the code's
+numerator and denominator (0 under the overlap threshold) — Cauchy–Schwarz (`mcc_parts_cauchy_schwarz`) already keeps it
+in [-1, 1], the clip only absorbs rounding. -/
+theorem mcc_formula_eq_ratio (sqrt : α → α) (hs : SqrtOk sqrt) (eps : α) (he0 : 0 < eps)
+    (ms : List Nat) (t : List Int) (f fm fm2 tm G W : List Int → α)
+    (hfm : ∀ x, fm x = f x * tm x) (hfm2 : ∀ x, fm2 x = f x * f x * tm x)
+    (htm : ∀ x, 0 ≤ tm x)
+    (hW0 : ∀ k, inShape ms k = true → 0 ≤ W (natsToInts k))
+    (hWb : ∀ k, inShape ms k = true → W (natsToInts k) * W (natsToInts k) = W (natsToInts k))
+    (hov : ¬ corrSpec ms tm W t < eps)
+    (thousand ratio maxDen maxOv : α)
+    (htol : thousand * eps * maxDen < (mccParts (ordOps sqrt eps) (fun a b => corrSpec ms a b t) ms fm fm2 tm G W).2.1) :
+    mccFinish (ordOps sqrt eps) thousand ratio (mccParts (ordOps sqrt eps) (fun a b => corrSpec ms a b t) ms fm fm2 tm G W)
+        maxDen maxOv
+      = if (mccParts (ordOps sqrt eps) (fun a b => corrSpec ms a b t) ms fm fm2 tm G W).2.2 < ratio * maxOv then 0
+        else (mccParts (ordOps sqrt eps) (fun a b => corrSpec ms a b t) ms fm fm2 tm G W).1
+              / (mccParts (ordOps sqrt eps) (fun a b => corrSpec ms a b t) ms fm fm2 tm G W).2.1 := by
+  have hcs := mcc_parts_cauchy_schwarz sqrt hs eps he0 ms t f fm fm2 tm G W hfm hfm2 htm hW0 hWb hov
+  have hd : 0 ≤ (mccParts (ordOps sqrt eps) (fun a b => corrSpec ms a b t) ms fm fm2 tm G W).2.1 := by
+    unfold mccParts; exact hs.nonneg _
+  generalize mccParts (ordOps sqrt eps) (fun a b => corrSpec ms a b t) ms fm fm2 tm G W = p at *
+  obtain ⟨num, den, ov⟩ := p
+  exact mccFinish_eq_ratio sqrt eps thousand ratio num den ov maxDen maxOv hcs hd htol
+
+/-- the final step under a positive rescaling of numerator and denominator (what `target ↦ c·target` does to the
+parts, see `mcc_parts_target_scale`): above the denominator tolerance — which scales along, being relative to the map
+maximum — the value is unchanged -/
+theorem mccFinish_scale_invariant (sqrt : α → α) (eps thousand ratio num den ov maxDen maxOv c : α) (hc : 0 < c)
+    (htol : thousand * eps * maxDen < den) :
+    mccFinish (ordOps sqrt eps) thousand ratio (c * num, c * den, ov) (c * maxDen) maxOv
+      = mccFinish (ordOps sqrt eps) thousand ratio (num, den, ov) maxDen maxOv := by
+  have htol' : thousand * eps * (c * maxDen) < c * den := by
+    have := mul_lt_mul_of_pos_left htol hc
+    linarith
+  have hq : c * num / (c * den) = num / den := by
+    have : c ≠ 0 := ne_of_gt hc
+    by_cases hd : den = 0
+    · simp [hd]
+    · field_simp
+  simp only [mccFinish, ordOps, decide_eq_true_eq, if_pos htol, if_pos htol', hq]
+
+omit [LinearOrder α] [IsStrictOrderedRing α] in
+theorem corrSpec_smul_left (ms : List Nat) (t : List Int) (a b : List Int → α) (c : α) :
+    corrSpec ms (fun x => c * a x) b t = c * corrSpec ms a b t := by
+  unfold corrSpec
+  rw [← sumShape_mul_left]
+  apply sumShape_congr; intro k _; ring
+
+/-- **what `target ↦ c·target` (`c > 0`) does to the MCC parts** the code computes per voxel (masked target `c·fm`,
+masked squared target `c²·fm2`): numerator and denominator are multiplied by `c`, the overlap is unchanged — for every
+template, both masks, every translation, including the clamps `max(·, 0)` and the `eps` floor of the overlap. -/
+theorem mcc_parts_target_scale (sqrt : α → α) (hs : SqrtOk sqrt) (eps : α)
+    (ms : List Nat) (t : List Int) (fm fm2 tm G W : List Int → α) (c : α) (hc : 0 < c) :
+    mccParts (ordOps sqrt eps) (fun a b => corrSpec ms a b t) ms (fun x => c * fm x) (fun x => c * c * fm2 x) tm G W
+      = (c * (mccParts (ordOps sqrt eps) (fun a b => corrSpec ms a b t) ms fm fm2 tm G W).1,
+         c * (mccParts (ordOps sqrt eps) (fun a b => corrSpec ms a b t) ms fm fm2 tm G W).2.1,
+         (mccParts (ordOps sqrt eps) (fun a b => corrSpec ms a b t) ms fm fm2 tm G W).2.2) := by
+  unfold mccParts
+  simp only [corrSpec_smul_left]
+  generalize normStats (ordOps sqrt eps) ms G W (maskSum (ordOps sqrt eps) ms W) = st
+  generalize corrSpec ms tm (normT (ordOps sqrt eps) st G W) t = t2
+  generalize corrSpec ms fm (normT (ordOps sqrt eps) st G W) t = n0
+  generalize corrSpec ms fm W t = t1
+  generalize corrSpec ms fm2 W t = F2
+  generalize corrSpec ms tm (fun x => (ordOps sqrt eps).sq (normT (ordOps sqrt eps) st G W x)) t = H2
+  generalize (if (ordOps sqrt eps).lt (corrSpec ms tm W t) (ordOps sqrt eps).eps = true then (ordOps sqrt eps).eps
+      else corrSpec ms tm W t) = ov
+  have e1 : (ordOps sqrt eps).sub (c * n0) ((ordOps sqrt eps).div ((ordOps sqrt eps).mul (c * t1) t2) ov)
+      = c * (ordOps sqrt eps).sub n0 ((ordOps sqrt eps).div ((ordOps sqrt eps).mul t1 t2) ov) := by
+    simp only [ordOps]; ring
+  have e2 : (ordOps sqrt eps).sub (c * c * F2) ((ordOps sqrt eps).div ((ordOps sqrt eps).sq (c * t1)) ov)
+      = c * c * (ordOps sqrt eps).sub F2 ((ordOps sqrt eps).div ((ordOps sqrt eps).sq t1) ov) := by
+    simp only [ordOps, Ops.sq]; ring
+  rw [e1, e2, max0_scale sqrt eps c _ hc]
+  generalize hd3e : (ordOps sqrt eps).max0 ((ordOps sqrt eps).sub F2 ((ordOps sqrt eps).div ((ordOps sqrt eps).sq t1) ov)) = d3
+  have hd3 : 0 ≤ d3 := by rw [← hd3e]; exact max0_nonneg sqrt eps _
+  generalize hdde : (ordOps sqrt eps).max0 ((ordOps sqrt eps).sub H2 ((ordOps sqrt eps).div ((ordOps sqrt eps).sq t2) ov)) = dd
+  have hdd : 0 ≤ dd := by rw [← hdde]; exact max0_nonneg sqrt eps _
+  have e3 : (ordOps sqrt eps).sqrt ((ordOps sqrt eps).mul (c * c * d3) dd) = c * (ordOps sqrt eps).sqrt ((ordOps sqrt eps).mul d3 dd) := by
+    show sqrt (c * c * d3 * dd) = c * sqrt (d3 * dd)
+    rw [mul_assoc (c * c) d3 dd]
+    exact hs.scale c (d3 * dd) hc (mul_nonneg hd3 hdd)
+  rw [e3]
+
+/-- **MCC is invariant under positive scaling of the target, end to end**: with the target multiplied by `c > 0` (and
+the map maximum of the denominator scaling along, as it does), the value `mcc_scoring` reports at a voxel whose
+denominator is above the tolerance is unchanged. -/
+theorem mcc_formula_target_scale_invariant (sqrt : α → α) (hs : SqrtOk sqrt) (eps : α)
+    (ms : List Nat) (t : List Int) (fm fm2 tm G W : List Int → α) (c : α) (hc : 0 < c)
+    (thousand ratio maxDen maxOv : α)
+    (htol : thousand * eps * maxDen < (mccParts (ordOps sqrt eps) (fun a b => corrSpec ms a b t) ms fm fm2 tm G W).2.1) :
+    mccFinish (ordOps sqrt eps) thousand ratio
+        (mccParts (ordOps sqrt eps) (fun a b => corrSpec ms a b t) ms (fun x => c * fm x) (fun x => c * c * fm2 x) tm G W)
+        (c * maxDen) maxOv
+      = mccFinish (ordOps sqrt eps) thousand ratio
+        (mccParts (ordOps sqrt eps) (fun a b => corrSpec ms a b t) ms fm fm2 tm G W) maxDen maxOv := by
+  rw [mcc_parts_target_scale sqrt hs eps ms t fm fm2 tm G W c hc]
+  generalize mccParts (ordOps sqrt eps) (fun a b => corrSpec ms a b t) ms fm fm2 tm G W = p at *
+  obtain ⟨num, den, ov⟩ := p
+  exact mccFinish_scale_invariant sqrt eps thousand ratio num den ov maxDen maxOv c hc htol
+
+end mcc_formula
+
+section corr_formulas
+variable {α : Type} [Field α] [LinearOrder α] [IsStrictOrderedRing α]
+
+/-- the value of the code's CORR / CAM formula with the full-box mask in closed form: `N/sqrt(A·B)` of the window
+`corrWin` (weights 1, target window, rotated standardised template `corrH`), and exactly 0 when `sqrt(A·B) ≤ eps` -/
+theorem corr_value_fullmask (sqrt : α → α) (eps : α)
+    (ms : List Nat) (t : List Int) (rot : (List Int → α) → (List Int → α)) (hr : RotSum ms rot)
+    (f f2 g Wm : List Int → α) (hf2 : ∀ x, f2 x = f x * f x)
+    (hfull : ∀ k, inShape ms k = true → Wm (natsToInts k) = 1) (hpos : 0 < prodL ms) :
+    scoreCORR (ordOps sqrt eps) (fun a b => corrSpec ms a b t) ms rot f f2 g Wm
+      = if eps < sqrt ((corrWin ms t f (corrH sqrt eps ms rot g Wm)).A * (corrWin ms t f (corrH sqrt eps ms rot g Wm)).B)
+        then (corrWin ms t f (corrH sqrt eps ms rot g Wm)).N
+              / sqrt ((corrWin ms t f (corrH sqrt eps ms rot g Wm)).A * (corrWin ms t f (corrH sqrt eps ms rot g Wm)).B)
+        else 0 := by
+  set o := ordOps sqrt eps with ho
+  have e_n : maskSum o ms Wm = ((prodL ms : Nat) : α) := by
+    unfold maskSum; rw [ho, boxSum_ord, ← sumShape_one ms]
+    exact sumShape_congr ms _ _ (fun k hk => hfull k hk)
+  set n : α := ((prodL ms : Nat) : α) with hn
+  have hnpos : 0 < n := by rw [hn]; exact_mod_cast hpos
+  have hnn : n ≠ 0 := ne_of_gt hnpos
+  set st := normStats o ms g Wm n with hst
+  set gh : List Int → α := normT o st g Wm with hgh
+  set g2 : List Int → α := fun x => o.mul (gh x) (Wm x) with hg2
+  set H : List Int → α := rot g2 with hH
+  -- the window: weights 1, a = target window, h = rotated standardised template
+  set W : Win α := ⟨ms, fun _ => 1, fun k => f (specIdx ms t k), fun k => H (natsToInts k)⟩ with hW
+  have hw' : ∀ k, inShape W.ms k = true → 0 ≤ W.w k := fun _ _ => zero_le_one
+  have hWn : W.n = n := by show sumShape ms (fun _ => (1 : α)) = n; rw [sumShape_one]
+  have hWnn : W.n ≠ 0 := by rw [hWn]; exact hnn
+  -- g2 = gh on the box
+  have g2box : ∀ k, inShape ms k = true → g2 (natsToInts k) = gh (natsToInts k) := by
+    intro k hk; simp [hg2, ho, ordOps, hfull k hk]
+  -- mean of the standardised template = mean of its rotation
+  have e_mean : o.div (boxSum o ms (fun k => o.mul (gh (natsToInts k)) (Wm (natsToInts k)))) n = W.mu := by
+    rw [ho, boxSum_ord]
+    show sumShape ms (fun k => gh (natsToInts k) * Wm (natsToInts k)) / n = W.mu
+    unfold Win.mu; rw [hWn]
+    have : sumShape ms (fun k => gh (natsToInts k) * Wm (natsToInts k)) = sumShape ms (fun k => g2 (natsToInts k)) :=
+      sumShape_congr ms _ _ (fun k hk => by simp [hg2, ho, ordOps])
+    rw [this, ← hr.sum g2]
+    congr 1
+    exact sumShape_congr ms _ _ (fun k _ => by simp [hW, hH])
+  -- Σ (gh − mean)² = Σ (H − mean)²
+  have e_ssd : boxSum o ms (fun k => o.mul (o.sq (o.sub (gh (natsToInts k)) W.mu)) (Wm (natsToInts k))) = W.B := by
+    rw [ho, boxSum_ord]
+    have h1 : sumShape ms (fun k => (ordOps sqrt eps).mul ((ordOps sqrt eps).sq ((ordOps sqrt eps).sub (gh (natsToInts k)) W.mu)) (Wm (natsToInts k)))
+        = sumShape ms (fun k => (fun x => (g2 x - W.mu) * (g2 x - W.mu)) (natsToInts k)) :=
+      sumShape_congr ms _ _ (fun k hk => by
+        simp only [ordOps, Ops.sq]; rw [hfull k hk, g2box k hk]; ring)
+    rw [h1, ← hr.sum (fun x => (g2 x - W.mu) * (g2 x - W.mu))]
+    have h2 := hr.map2 (fun a _ => (a - W.mu) * (a - W.mu)) g2 g2
+    unfold Win.B
+    apply sumShape_congr; intro k _
+    have := congrFun h2 (natsToInts k)
+    beta_reduce at this
+    rw [← this]
+    exact (one_mul _).symm
+  have hms : W.ms = ms := rfl
+  have e_ws : corrSpec ms f Wm t = sumShape W.ms (fun k => W.w k * W.a k) := by
+    rw [hms]; unfold corrSpec; apply sumShape_congr; intro k hk; rw [hfull k hk]; exact (mul_comm _ _)
+  have e_s2 : corrSpec ms f2 Wm t = sumShape W.ms (fun k => W.w k * (W.a k * W.a k)) := by
+    rw [hms]; unfold corrSpec; apply sumShape_congr; intro k hk; rw [hfull k hk, hf2]; exact (mul_comm _ _)
+  have e_fH : corrSpec ms f H t = sumShape W.ms (fun k => W.w k * (W.a k * W.h k)) := by
+    rw [hms]; unfold corrSpec; apply sumShape_congr; intro k _; exact (one_mul _).symm
+  -- denominator factor on the target side
+  have e_den0 : o.sub (corrSpec ms f2 Wm t) (o.div (o.sq (corrSpec ms f Wm t)) (o.ofNat (prodL ms))) = W.A := by
+    have := W.var_formula_a hWnn
+    rw [e_ws, e_s2]
+    have hof : o.ofNat (prodL ms) = n := rfl
+    rw [hof]
+    simp only [ho, ordOps, Ops.sq]
+    rw [hWn] at this
+    have h3 : W.A = (sumShape W.ms (fun k => W.w k * (W.a k * W.a k)) / n
+        - (sumShape W.ms (fun k => W.w k * W.a k) / n) ^ 2) * n := by rw [this]; field_simp
+    rw [h3]; field_simp
+  -- numerator
+  have e_num : o.sub (corrSpec ms f H t) (o.mul (corrSpec ms f Wm t) W.mu) = W.N := by
+    rw [e_ws, e_fH]
+    unfold Win.N
+    have e : (fun k => W.w k * (W.a k * (W.h k - W.mu)))
+        = fun k => W.w k * (W.a k * W.h k) - W.mu * (W.w k * W.a k) := by funext k; ring
+    rw [e, sumShape_sub, sumShape_mul_left W.ms W.mu (fun k => W.w k * W.a k)]
+    simp only [ho, ordOps]; ring
+  have hAB : 0 ≤ W.A * W.B := mul_nonneg (W.A_nonneg hw') (W.B_nonneg hw')
+  unfold scoreCORR
+  simp only [← ho, e_n, ← hst, ← hgh, e_mean, e_ssd, e_den0, e_num, ← hH, ← hg2]
+  have hmul : o.mul W.A W.B = W.A * W.B := rfl
+  have hmax : o.max0 (W.A * W.B) = W.A * W.B := max0_of_nonneg sqrt eps _ hAB
+  rw [hmul, hmax]
+  have hsq : o.sqrt (W.A * W.B) = sqrt (W.A * W.B) := rfl
+  rw [hsq]
+  have hHH : corrH sqrt eps ms rot g Wm = H := by
+    unfold corrH; rw [e_n]
+  have hWW : corrWin ms t f (corrH sqrt eps ms rot g Wm) = W := by rw [hHH]
+  rw [hWW]
+  by_cases hg : eps < sqrt (W.A * W.B)
+  · have : o.lt o.eps (sqrt (W.A * W.B)) = true := by simp [ho, ordOps, hg]
+    simp only [this, if_true, if_pos hg]
+    simp [ho, ordOps]; ring
+  · have : o.lt o.eps (sqrt (W.A * W.B)) = false := by simp [ho, ordOps, hg]
+    simp only [this, if_false, Bool.false_eq_true, if_neg hg]
+    simp [ho, ordOps]
+
+theorem SqrtOk.mul_self {sqrt : α → α} (hs : SqrtOk sqrt) (b : α) (hb : 0 ≤ b) : sqrt (b * b) = b :=
+  hs.unique (b * b) b (mul_nonneg hb hb) hb rfl
+
+/-- **A planted copy scores exactly 1 in the code's CORR / CAM formula** (full-box mask, rotation permuting the box):
+when the target window at translation `t` equals the rotated standardised template and its spread is above the guard
+(`eps < B = Σ (H − mean)²`), the value is 1 — and by `corr_formula_sq_le_one_fullmask` nothing in the map exceeds it. -/
+theorem corr_formula_planted_eq_one_fullmask (sqrt : α → α) (hs : SqrtOk sqrt) (eps : α) (he0 : 0 < eps)
+    (ms : List Nat) (t : List Int) (rot : (List Int → α) → (List Int → α)) (hr : RotSum ms rot)
+    (f g Wm : List Int → α)
+    (hfull : ∀ k, inShape ms k = true → Wm (natsToInts k) = 1) (hpos : 0 < prodL ms)
+    (hplant : ∀ k, inShape ms k = true → f (specIdx ms t k) = corrH sqrt eps ms rot g Wm (natsToInts k))
+    (hg : eps < (corrWin ms t f (corrH sqrt eps ms rot g Wm)).B) :
+    scoreCORR (ordOps sqrt eps) (fun a b => corrSpec ms a b t) ms rot f (fun x => f x * f x) g Wm = 1 := by
+  rw [corr_value_fullmask sqrt eps ms t rot hr f _ g Wm (fun _ => rfl) hfull hpos]
+  have hw : ∀ k, inShape (corrWin ms t f (corrH sqrt eps ms rot g Wm)).ms k = true →
+      0 ≤ (corrWin ms t f (corrH sqrt eps ms rot g Wm)).w k := fun _ _ => zero_le_one
+  have hn : 0 < (corrWin ms t f (corrH sqrt eps ms rot g Wm)).n := by
+    show 0 < sumShape ms (fun _ => (1 : α)); rw [sumShape_one]; exact_mod_cast hpos
+  have hp : ∀ k, inShape (corrWin ms t f (corrH sqrt eps ms rot g Wm)).ms k = true →
+      (corrWin ms t f (corrH sqrt eps ms rot g Wm)).w k * (corrWin ms t f (corrH sqrt eps ms rot g Wm)).a k
+        = (corrWin ms t f (corrH sqrt eps ms rot g Wm)).w k * (corrWin ms t f (corrH sqrt eps ms rot g Wm)).h k := by
+    intro k hk
+    show (1 : α) * f (specIdx ms t k) = 1 * corrH sqrt eps ms rot g Wm (natsToInts k)
+    rw [hplant k hk]
+  have hB : 0 < (corrWin ms t f (corrH sqrt eps ms rot g Wm)).B := lt_trans he0 hg
+  obtain ⟨hσpos, hσσ⟩ := (corrWin ms t f (corrH sqrt eps ms rot g Wm)).sigma_pos sqrt hs hw hn hB
+  obtain ⟨hN, hA, _⟩ := (corrWin ms t f (corrH sqrt eps ms rot g Wm)).planted_eq_one hp hn _ hσpos hσσ
+  rw [hN, hA, hs.mul_self _ (le_of_lt hB), if_pos hg]
+  exact div_self (ne_of_gt hB)
+
+/-- **zero-variance guard of CORR / CAM**: a constant (or empty) target window makes `A = 0`, the denominator
+`sqrt(A·B) = 0` is not above `eps`, and the code returns exactly 0 (no division). -/
+theorem corr_formula_constant_window_zero_fullmask (sqrt : α → α) (hs : SqrtOk sqrt) (eps : α) (he0 : 0 < eps)
+    (ms : List Nat) (t : List Int) (rot : (List Int → α) → (List Int → α)) (hr : RotSum ms rot)
+    (f f2 g Wm : List Int → α) (hf2 : ∀ x, f2 x = f x * f x)
+    (hfull : ∀ k, inShape ms k = true → Wm (natsToInts k) = 1) (hpos : 0 < prodL ms)
+    (c : α) (hc : ∀ k, inShape ms k = true → f (specIdx ms t k) = c) :
+    scoreCORR (ordOps sqrt eps) (fun a b => corrSpec ms a b t) ms rot f f2 g Wm = 0
+      ∧ ¬ eps < sqrt ((corrWin ms t f (corrH sqrt eps ms rot g Wm)).A * (corrWin ms t f (corrH sqrt eps ms rot g Wm)).B) := by
+  have hn : 0 < (corrWin ms t f (corrH sqrt eps ms rot g Wm)).n := by
+    show 0 < sumShape ms (fun _ => (1 : α)); rw [sumShape_one]; exact_mod_cast hpos
+  have h0 := (corrWin ms t f (corrH sqrt eps ms rot g Wm)).constant_window c hc (ne_of_gt hn)
+  have hguard : ¬ eps < sqrt ((corrWin ms t f (corrH sqrt eps ms rot g Wm)).A * (corrWin ms t f (corrH sqrt eps ms rot g Wm)).B) := by
+    rw [h0.1, zero_mul, hs.zero]; exact not_lt.mpr (le_of_lt he0)
+  refine ⟨?_, hguard⟩
+  rw [corr_value_fullmask sqrt eps ms t rot hr f f2 g Wm hf2 hfull hpos, if_neg hguard]
+
+/-- **Intensity invariance of the CORR / CAM formula** (full-box mask, rotation permuting the box): replacing the target
+by `c·f + d`, `c > 0`, leaves the value unchanged when the denominator is on the same side of the code's absolute guard
+before and after (`eps < den ↔ eps < c·den`; both below: both values are 0). -/
+theorem corr_formula_target_affine_invariant_fullmask (sqrt : α → α) (hs : SqrtOk sqrt) (eps : α)
+    (ms : List Nat) (t : List Int) (rot : (List Int → α) → (List Int → α)) (hr : RotSum ms rot)
+    (f g Wm : List Int → α) (c d : α) (hc : 0 < c)
+    (hfull : ∀ k, inShape ms k = true → Wm (natsToInts k) = 1) (hpos : 0 < prodL ms)
+    (hg : eps < sqrt ((corrWin ms t f (corrH sqrt eps ms rot g Wm)).A * (corrWin ms t f (corrH sqrt eps ms rot g Wm)).B)
+        ↔ eps < c * sqrt ((corrWin ms t f (corrH sqrt eps ms rot g Wm)).A * (corrWin ms t f (corrH sqrt eps ms rot g Wm)).B)) :
+    scoreCORR (ordOps sqrt eps) (fun a b => corrSpec ms a b t) ms rot (fun x => c * f x + d)
+        (fun x => (c * f x + d) * (c * f x + d)) g Wm
+      = scoreCORR (ordOps sqrt eps) (fun a b => corrSpec ms a b t) ms rot f (fun x => f x * f x) g Wm := by
+  rw [corr_value_fullmask sqrt eps ms t rot hr f _ g Wm (fun _ => rfl) hfull hpos,
+      corr_value_fullmask sqrt eps ms t rot hr (fun x => c * f x + d) _ g Wm (fun _ => rfl) hfull hpos]
+  have hW' : corrWin ms t (fun x => c * f x + d) (corrH sqrt eps ms rot g Wm)
+      = (corrWin ms t f (corrH sqrt eps ms rot g Wm)).affA c d := rfl
+  rw [hW']
+  have hw : ∀ k, inShape (corrWin ms t f (corrH sqrt eps ms rot g Wm)).ms k = true →
+      0 ≤ (corrWin ms t f (corrH sqrt eps ms rot g Wm)).w k := fun _ _ => zero_le_one
+  have hnn : (corrWin ms t f (corrH sqrt eps ms rot g Wm)).n ≠ 0 := by
+    apply ne_of_gt
+    show 0 < sumShape ms (fun _ => (1 : α)); rw [sumShape_one]; exact_mod_cast hpos
+  generalize corrWin ms t f (corrH sqrt eps ms rot g Wm) = W at *
+  obtain ⟨hN2, hA2, hB2⟩ := W.target_affine c d hnn
+  have e : c * c * W.A * W.B = c * c * (W.A * W.B) := by ring
+  rw [hN2, hA2, hB2, e, hs.scale c _ hc (mul_nonneg (W.A_nonneg hw) (W.B_nonneg hw))]
+  have hcne : c ≠ 0 := ne_of_gt hc
+  by_cases h : eps < sqrt (W.A * W.B)
+  · rw [if_pos h, if_pos (hg.mp h)]
+    by_cases h0 : sqrt (W.A * W.B) = 0
+    · simp [h0]
+    · field_simp
+  · rw [if_neg h, if_neg (fun h' => h (hg.mpr h'))]
+
+end corr_formulas
+
+section mcc_planted
+variable {α : Type} [Field α] [LinearOrder α] [IsStrictOrderedRing α]
+
+/-- **the MCC parts in closed form**: for a binary template mask, a non-negative target mask and an overlap above `eps`,
+numerator, denominator and overlap the code computes per voxel are `N`, `sqrt(A·B)` and `n` of the window `mccWin`
+(weights `tm·W`). -/
+theorem mcc_parts_value (sqrt : α → α) (eps : α) (he0 : 0 < eps)
+    (ms : List Nat) (t : List Int) (f fm fm2 tm G W : List Int → α)
+    (hfm : ∀ x, fm x = f x * tm x) (hfm2 : ∀ x, fm2 x = f x * f x * tm x)
+    (htm : ∀ x, 0 ≤ tm x)
+    (hW0 : ∀ k, inShape ms k = true → 0 ≤ W (natsToInts k))
+    (hWb : ∀ k, inShape ms k = true → W (natsToInts k) * W (natsToInts k) = W (natsToInts k))
+    (hov : ¬ corrSpec ms tm W t < eps) :
+    mccParts (ordOps sqrt eps) (fun a b => corrSpec ms a b t) ms fm fm2 tm G W
+      = ((mccWin sqrt eps ms t f tm G W).N,
+         sqrt ((mccWin sqrt eps ms t f tm G W).A * (mccWin sqrt eps ms t f tm G W).B),
+         (mccWin sqrt eps ms t f tm G W).n) := by
+  unfold mccWin
+  generalize hst : normStats (ordOps sqrt eps) ms G W (maskSum (ordOps sqrt eps) ms W) = st
+  -- the window with weights u = tm(t+k)·W(k)
+  have key : ∀ V : Win α, V = ⟨ms, fun k => tm (specIdx ms t k) * W (natsToInts k), fun k => f (specIdx ms t k),
+      fun k => (G (natsToInts k) - st.1) / st.2⟩ →
+      mccParts (ordOps sqrt eps) (fun a b => corrSpec ms a b t) ms fm fm2 tm G W
+        = (V.N, sqrt (V.A * V.B), V.n) := by
+    intro V hV
+    have hVms : V.ms = ms := by rw [hV]
+    have hVw : ∀ k, V.w k = tm (specIdx ms t k) * W (natsToInts k) := by intro k; rw [hV]
+    have hVa : ∀ k, V.a k = f (specIdx ms t k) := by intro k; rw [hV]
+    have hVh : ∀ k, V.h k = (G (natsToInts k) - st.1) / st.2 := by intro k; rw [hV]
+    have hw' : ∀ k, inShape V.ms k = true → 0 ≤ V.w k := by
+      intro k hk; rw [hVw]; rw [hVms] at hk; exact mul_nonneg (htm _) (hW0 k hk)
+    -- the six correlation sums in terms of the window
+    have e_ov : corrSpec ms tm W t = V.n := by
+      unfold corrSpec Win.n; rw [hVms]; apply sumShape_congr; intro k _; rw [hVw]
+    have e_t : corrSpec ms fm W t = sumShape V.ms (fun k => V.w k * V.a k) := by
+      unfold corrSpec; rw [hVms]; apply sumShape_congr; intro k _; rw [hVw, hVa, hfm]; ring
+    have e_t2 : corrSpec ms tm (normT (ordOps sqrt eps) st G W) t = sumShape V.ms (fun k => V.w k * V.h k) := by
+      unfold corrSpec; rw [hVms]; apply sumShape_congr; intro k _
+      rw [hVw, hVh]; simp only [normT, normApply, ordOps]; ring
+    have e_n0 : corrSpec ms fm (normT (ordOps sqrt eps) st G W) t = sumShape V.ms (fun k => V.w k * (V.a k * V.h k)) := by
+      unfold corrSpec; rw [hVms]; apply sumShape_congr; intro k _
+      rw [hVw, hVa, hVh, hfm]; simp only [normT, normApply, ordOps]; ring
+    have e_f2 : corrSpec ms fm2 W t = sumShape V.ms (fun k => V.w k * (V.a k * V.a k)) := by
+      unfold corrSpec; rw [hVms]; apply sumShape_congr; intro k _; rw [hVw, hVa, hfm2]; ring
+    have e_h2 : corrSpec ms tm (fun x => (ordOps sqrt eps).sq (normT (ordOps sqrt eps) st G W x)) t
+        = sumShape V.ms (fun k => V.w k * (V.h k * V.h k)) := by
+      unfold corrSpec; rw [hVms]; apply sumShape_congr; intro k hk
+      rw [hVw, hVh]; simp only [normT, normApply, ordOps, Ops.sq]
+      have := hWb k hk
+      calc tm (specIdx ms t k) * ((G (natsToInts k) - st.1) / st.2 * W (natsToInts k) * ((G (natsToInts k) - st.1) / st.2 * W (natsToInts k)))
+          = tm (specIdx ms t k) * ((G (natsToInts k) - st.1) / st.2 * ((G (natsToInts k) - st.1) / st.2)) * (W (natsToInts k) * W (natsToInts k)) := by ring
+        _ = _ := by rw [this]; ring
+    have hnpos : 0 < V.n := by rw [← e_ov]; exact lt_of_lt_of_le he0 (not_lt.mp hov)
+    have hnn : V.n ≠ 0 := ne_of_gt hnpos
+    have hg : (ordOps sqrt eps).lt V.n (ordOps sqrt eps).eps = false := by
+      have : ¬ V.n < eps := by rw [← e_ov]; exact hov
+      simp [ordOps, this]
+    -- numerator and the two variance terms
+    have eN : sumShape V.ms (fun k => V.w k * (V.a k * V.h k))
+        - sumShape V.ms (fun k => V.w k * V.a k) * sumShape V.ms (fun k => V.w k * V.h k) / V.n = V.N := by
+      unfold Win.N Win.mu
+      have e : (fun k => V.w k * (V.a k * (V.h k - sumShape V.ms (fun k => V.w k * V.h k) / V.n)))
+          = fun k => V.w k * (V.a k * V.h k) - (sumShape V.ms (fun k => V.w k * V.h k) / V.n) * (V.w k * V.a k) := by
+        funext k; ring
+      rw [e, sumShape_sub, sumShape_mul_left V.ms _ (fun k => V.w k * V.a k)]
+      field_simp
+    have eA : sumShape V.ms (fun k => V.w k * (V.a k * V.a k)) - (sumShape V.ms (fun k => V.w k * V.a k)) ^ 2 / V.n = V.A := by
+      have := V.var_formula_a hnn
+      have h3 : V.A = (sumShape V.ms (fun k => V.w k * (V.a k * V.a k)) / V.n
+          - (sumShape V.ms (fun k => V.w k * V.a k) / V.n) ^ 2) * V.n := by rw [this]; field_simp
+      rw [h3]; field_simp
+    have eB : sumShape V.ms (fun k => V.w k * (V.h k * V.h k)) - (sumShape V.ms (fun k => V.w k * V.h k)) ^ 2 / V.n = V.B := by
+      have := V.var_formula_h hnn
+      have h3 : V.B = (sumShape V.ms (fun k => V.w k * (V.h k * V.h k)) / V.n
+          - (sumShape V.ms (fun k => V.w k * V.h k) / V.n) ^ 2) * V.n := by rw [this]; field_simp
+      rw [h3]; field_simp
+    have hA0 := V.A_nonneg hw'
+    have hB0 := V.B_nonneg hw'
+    unfold mccParts
+    simp only [hst, e_ov, e_t, e_t2, e_n0, e_f2, e_h2]
+    simp only [hg, if_false, Bool.false_eq_true]
+    have e1 : (ordOps sqrt eps).sub (sumShape V.ms fun k => V.w k * (V.a k * V.h k))
+        ((ordOps sqrt eps).div ((ordOps sqrt eps).mul (sumShape V.ms fun k => V.w k * V.a k) (sumShape V.ms fun k => V.w k * V.h k)) V.n)
+        = V.N := eN
+    have e2 : (ordOps sqrt eps).sub (sumShape V.ms fun k => V.w k * (V.a k * V.a k))
+        ((ordOps sqrt eps).div ((ordOps sqrt eps).sq (sumShape V.ms fun k => V.w k * V.a k)) V.n) = V.A := by
+      rw [← eA]; simp only [ordOps, Ops.sq]; ring
+    have e3 : (ordOps sqrt eps).sub (sumShape V.ms fun k => V.w k * (V.h k * V.h k))
+        ((ordOps sqrt eps).div ((ordOps sqrt eps).sq (sumShape V.ms fun k => V.w k * V.h k)) V.n) = V.B := by
+      rw [← eB]; simp only [ordOps, Ops.sq]; ring
+    rw [e1, e2, e3, max0_of_nonneg sqrt eps _ hA0, max0_of_nonneg sqrt eps _ hB0]
+    rfl
+  exact key _ rfl
+
+/-- a window whose template is an affine image of the target window, `h = (a − m)/s` under the mask: `N = A/s`, `B = A/s²` -/
+theorem Win.affine_related (W : Win α) (m s : α) (hs0 : s ≠ 0) (hn : W.n ≠ 0)
+    (hh : ∀ k, inShape W.ms k = true → W.h k = (W.a k - m) / s) :
+    W.N = W.A / s ∧ W.B = W.A / (s * s) := by
+  have e1 : sumShape W.ms (fun k => W.w k * W.h k) = (sumShape W.ms (fun k => W.w k * W.a k) - m * W.n) / s := by
+    have e : sumShape W.ms (fun k => W.w k * W.h k)
+        = sumShape W.ms (fun k => (1 / s) * (W.w k * W.a k) + (-(m / s)) * W.w k) :=
+      sumShape_congr _ _ _ (fun k hk => by rw [hh k hk]; field_simp; ring)
+    rw [e, sumShape_add, sumShape_mul_left, sumShape_mul_left]
+    unfold Win.n
+    field_simp
+    ring
+  have hmu : W.mu = (W.fbar - m) / s := by
+    unfold Win.mu Win.fbar
+    rw [e1]
+    field_simp
+  constructor
+  · rw [W.N_centered hn]
+    unfold Win.A
+    rw [div_eq_mul_inv, mul_comm, ← sumShape_mul_left]
+    apply sumShape_congr; intro k hk
+    rw [hh k hk, hmu]
+    field_simp
+    ring
+  · unfold Win.B Win.A
+    rw [div_eq_mul_inv, mul_comm, ← sumShape_mul_left]
+    apply sumShape_congr; intro k hk
+    rw [hh k hk, hmu]
+    field_simp
+    ring
+
+/-- **A planted copy scores exactly 1 in the code's MCC formula, full masks**: target mask 1 everywhere, template mask
+1 on the box, target window equal to the template, template with spread (`σ > 0`, `A > 0`), overlap and denominator
+above the code's thresholds: the reported value is 1 — and by `mcc_formula_abs_le_one` nothing exceeds it. -/
+theorem mcc_formula_planted_eq_one_fullmasks (sqrt : α → α) (hs : SqrtOk sqrt) (eps : α) (he0 : 0 < eps)
+    (ms : List Nat) (t : List Int) (f fm fm2 tm G W : List Int → α)
+    (hfm : ∀ x, fm x = f x * tm x) (hfm2 : ∀ x, fm2 x = f x * f x * tm x)
+    (htm1 : ∀ x, tm x = 1)
+    (hfull : ∀ k, inShape ms k = true → W (natsToInts k) = 1)
+    (hplant : ∀ k, inShape ms k = true → f (specIdx ms t k) = G (natsToInts k))
+    (hσ : 0 < (normStats (ordOps sqrt eps) ms G W (maskSum (ordOps sqrt eps) ms W)).2)
+    (hA : 0 < (mccWin sqrt eps ms t f tm G W).A)
+    (hov : ¬ corrSpec ms tm W t < eps)
+    (thousand ratio maxDen maxOv : α)
+    (htol : thousand * eps * maxDen < (mccParts (ordOps sqrt eps) (fun a b => corrSpec ms a b t) ms fm fm2 tm G W).2.1)
+    (hovr : ¬ (mccParts (ordOps sqrt eps) (fun a b => corrSpec ms a b t) ms fm fm2 tm G W).2.2 < ratio * maxOv) :
+    mccFinish (ordOps sqrt eps) thousand ratio (mccParts (ordOps sqrt eps) (fun a b => corrSpec ms a b t) ms fm fm2 tm G W)
+        maxDen maxOv = 1 := by
+  have htm : ∀ x, 0 ≤ tm x := fun x => by rw [htm1]; exact zero_le_one
+  have hW0 : ∀ k, inShape ms k = true → 0 ≤ W (natsToInts k) := fun k hk => by rw [hfull k hk]; exact zero_le_one
+  have hWb : ∀ k, inShape ms k = true → W (natsToInts k) * W (natsToInts k) = W (natsToInts k) :=
+    fun k hk => by rw [hfull k hk]; ring
+  rw [mcc_formula_eq_ratio sqrt hs eps he0 ms t f fm fm2 tm G W hfm hfm2 htm hW0 hWb hov thousand ratio maxDen maxOv htol,
+      if_neg hovr, mcc_parts_value sqrt eps he0 ms t f fm fm2 tm G W hfm hfm2 htm hW0 hWb hov]
+  dsimp only
+  have hnV : (mccWin sqrt eps ms t f tm G W).n = corrSpec ms tm W t := rfl
+  have hnn : (mccWin sqrt eps ms t f tm G W).n ≠ 0 := by
+    rw [hnV]; exact ne_of_gt (lt_of_lt_of_le he0 (not_lt.mp hov))
+  have hh : ∀ k, inShape (mccWin sqrt eps ms t f tm G W).ms k = true →
+      (mccWin sqrt eps ms t f tm G W).h k
+        = ((mccWin sqrt eps ms t f tm G W).a k - (normStats (ordOps sqrt eps) ms G W (maskSum (ordOps sqrt eps) ms W)).1)
+            / (normStats (ordOps sqrt eps) ms G W (maskSum (ordOps sqrt eps) ms W)).2 := by
+    intro k hk
+    show (G (natsToInts k) - _) / _ = (f (specIdx ms t k) - _) / _
+    rw [hplant k hk]
+  obtain ⟨hN, hB⟩ := (mccWin sqrt eps ms t f tm G W).affine_related _ _ (ne_of_gt hσ) hnn hh
+  generalize (normStats (ordOps sqrt eps) ms G W (maskSum (ordOps sqrt eps) ms W)).2 = s at *
+  generalize mccWin sqrt eps ms t f tm G W = V at *
+  have hq : 0 < V.A / s := div_pos hA hσ
+  have e : V.A * (V.A / (s * s)) = (V.A / s) * (V.A / s) := by field_simp
+  rw [hN, hB, e, hs.mul_self _ (le_of_lt hq)]
+  exact div_self (ne_of_gt hq)
+
+end mcc_planted
+
+section cam_formula
+variable {α : Type} [Field α] [LinearOrder α] [IsStrictOrderedRing α]
+
+/-- **CAM = CORR on the standardised target** (`cam_setup` standardises the whole target with its global mean `m` and
+deviation `s > 0`, then runs `corr_scoring`): with the full-box mask and a rotation permuting the box the value equals the
+CORR value of the raw target whenever the denominator is on the same side of the absolute guard — so every CORR theorem
+above (bound, planted ⇒ 1, invariances, zero-variance guard) carries over to CAM. -/
+theorem cam_formula_eq_corr_fullmask (sqrt : α → α) (hs : SqrtOk sqrt) (eps : α)
+    (ms : List Nat) (t : List Int) (rot : (List Int → α) → (List Int → α)) (hr : RotSum ms rot)
+    (f g Wm : List Int → α) (m s : α) (hs0 : 0 < s)
+    (hfull : ∀ k, inShape ms k = true → Wm (natsToInts k) = 1) (hpos : 0 < prodL ms)
+    (hg : eps < sqrt ((corrWin ms t f (corrH sqrt eps ms rot g Wm)).A * (corrWin ms t f (corrH sqrt eps ms rot g Wm)).B)
+        ↔ eps < 1 / s * sqrt ((corrWin ms t f (corrH sqrt eps ms rot g Wm)).A * (corrWin ms t f (corrH sqrt eps ms rot g Wm)).B)) :
+    scoreCORR (ordOps sqrt eps) (fun a b => corrSpec ms a b t) ms rot (fun x => (f x - m) / s)
+        (fun x => (f x - m) / s * ((f x - m) / s)) g Wm
+      = scoreCORR (ordOps sqrt eps) (fun a b => corrSpec ms a b t) ms rot f (fun x => f x * f x) g Wm := by
+  have e : ∀ x, (f x - m) / s = 1 / s * f x + -m / s := fun x => by field_simp; ring
+  simp only [e]
+  exact corr_formula_target_affine_invariant_fullmask sqrt hs eps ms t rot hr f g Wm (1 / s) (-m / s)
+    (by positivity) hfull hpos hg
+
+end cam_formula
+
+/-! ### non-vacuity of the hypotheses used by the formula theorems above -/
+
+/-- the real square root satisfies `SqrtOk` (so every theorem above applies to `α = ℝ`, `sqrt = Real.sqrt`) -/
+example : SqrtOk Real.sqrt := ⟨Real.sqrt_nonneg, fun _ hx => Real.mul_self_sqrt hx⟩
+
+/-- a planted window: full mask, template `0,1,2`, target equal to it — positive mass, positive spread, `hplant` holds -/
+example : (0 : ℚ) < (⟨[3], fun _ => (1 : ℚ), fun k => (k.headD 0 : ℚ), fun k => (k.headD 0 : ℚ)⟩ : Win ℚ).B
+    ∧ ∀ k, (⟨[3], fun _ => (1 : ℚ), fun k => (k.headD 0 : ℚ), fun k => (k.headD 0 : ℚ)⟩ : Win ℚ).w k
+          * (⟨[3], fun _ => (1 : ℚ), fun k => (k.headD 0 : ℚ), fun k => (k.headD 0 : ℚ)⟩ : Win ℚ).a k
+        = (⟨[3], fun _ => (1 : ℚ), fun k => (k.headD 0 : ℚ), fun k => (k.headD 0 : ℚ)⟩ : Win ℚ).w k
+          * (⟨[3], fun _ => (1 : ℚ), fun k => (k.headD 0 : ℚ), fun k => (k.headD 0 : ℚ)⟩ : Win ℚ).h k := by
+  constructor
+  · simp [Win.B, Win.mu, Win.n, sumShape, sumRange]; norm_num
+  · intro k; rfl
+
+/-- a constant window (`hc` of the `…_constant_window_zero` theorems) with a non-constant template: `A = 0 < B` -/
+example : (⟨[3], fun _ => (1 : ℚ), fun _ => (5 : ℚ), fun k => (k.headD 0 : ℚ)⟩ : Win ℚ).A = 0
+    ∧ (0 : ℚ) < (⟨[3], fun _ => (1 : ℚ), fun _ => (5 : ℚ), fun k => (k.headD 0 : ℚ)⟩ : Win ℚ).B := by
+  constructor
+  · simp [Win.A, Win.fbar, Win.n, sumShape, sumRange]; norm_num
+  · simp [Win.B, Win.mu, Win.n, sumShape, sumRange]; norm_num
+
+/-- the guard equivalences `eps < sd ↔ eps < c·sd` of the target-invariance theorems hold e.g. for `sd = 1, c = 3, eps = 1/1000`
+(both above) and for `sd = 0` (both below) -/
+example : ((1 / 1000 : ℚ) < 1 ↔ (1 / 1000 : ℚ) < 3 * 1) ∧ ((1 / 1000 : ℚ) < 0 ↔ (1 / 1000 : ℚ) < 3 * 0) := by
+  constructor <;> norm_num
+
+/-- hypotheses of `mccFinish_eq_ratio` / `mccFinish_scale_invariant` / `mccFinish_low_denominator` on numbers:
+`num = 1, den = 2`, tolerance `1000·1e-6·2 < 2`; and a denominator below the tolerance -/
+example : ((1 : ℚ)) ^ 2 ≤ 2 ^ 2 ∧ (0 : ℚ) ≤ 2 ∧ (1000 : ℚ) * (1 / 1000000) * 2 < 2
+    ∧ ¬ ((1000 : ℚ) * (1 / 1000000) * 2000 < 1) := by norm_num
+
+/-- the clip is inactive on those numbers: `mccFinish` returns `num/den = 1/2` -/
+example (sqrt : ℚ → ℚ) :
+    mccFinish (ordOps sqrt (1 / 1000000)) 1000 (3 / 10) ((1 : ℚ), 2, 5) 2 5 = 1 / 2 := by
+  rw [mccFinish_eq_ratio sqrt _ _ _ 1 2 5 2 5 (by norm_num) (by norm_num) (by norm_num)]
+  norm_num
+
+/-- the template change `g ↦ 2·g + 7` on a mask of mass 3 (`hn` of the template-invariance theorems) -/
+example : sumShape [3] (fun k => (fun _ : List Int => (1 : ℚ)) (natsToInts k)) ≠ 0 := by
+  simp [sumShape, sumRange]; norm_num
+
+/-- `Win.affine_related` / the planted MCC window: target `0,1,2`, template its standardised image `(a − 1)/2`,
+positive mass and spread -/
+example : (∀ k, (⟨[3], fun _ => (1 : ℚ), fun k => (k.headD 0 : ℚ), fun k => ((k.headD 0 : ℚ) - 1) / 2⟩ : Win ℚ).h k
+      = ((⟨[3], fun _ => (1 : ℚ), fun k => (k.headD 0 : ℚ), fun k => ((k.headD 0 : ℚ) - 1) / 2⟩ : Win ℚ).a k - 1) / 2)
+    ∧ (0 : ℚ) < (⟨[3], fun _ => (1 : ℚ), fun k => (k.headD 0 : ℚ), fun k => ((k.headD 0 : ℚ) - 1) / 2⟩ : Win ℚ).A := by
+  constructor
+  · intro k; rfl
+  · simp [Win.A, Win.fbar, Win.n, sumShape, sumRange]; norm_num
+
+section mcc_template_final
+variable {α : Type} [Field α] [LinearOrder α] [IsStrictOrderedRing α]
+
+/-- **MCC is invariant under `template ↦ c·template + d`, `c > 0`, end to end**: the value `mcc_scoring` reports is
+unchanged, with the same map maxima (all parts are unchanged, `mcc_formula_template_affine_invariant`) — no guard
+condition, any masks, any correlation functional. -/
+theorem mcc_formula_template_affine_invariant_final (sqrt : α → α) (hs : SqrtOk sqrt) (eps thousand ratio : α)
+    (C : (List Int → α) → (List Int → α) → α) (ms : List Nat) (fm fm2 tm G W : List Int → α)
+    (c d : α) (hc : 0 < c) (hn : sumShape ms (fun k => W (natsToInts k)) ≠ 0) (maxDen maxOv : α) :
+    mccFinish (ordOps sqrt eps) thousand ratio (mccParts (ordOps sqrt eps) C ms fm fm2 tm (fun x => c * G x + d) W) maxDen maxOv
+      = mccFinish (ordOps sqrt eps) thousand ratio (mccParts (ordOps sqrt eps) C ms fm fm2 tm G W) maxDen maxOv := by
+  rw [mcc_formula_template_affine_invariant sqrt hs eps C ms fm fm2 tm G W c d hc hn]
+
+/-- all five formulas over the reals at once: `Real.sqrt` qualifies, so e.g. the MCC bound holds for real inputs -/
+example (eps thousand ratio : ℝ) (C : (List Int → ℝ) → (List Int → ℝ) → ℝ) (ms : List Nat)
+    (fm fm2 tm G W : List Int → ℝ) (maxDen maxOv : ℝ) :
+    (mccFinish (ordOps Real.sqrt eps) thousand ratio (mccParts (ordOps Real.sqrt eps) C ms fm fm2 tm G W) maxDen maxOv) ^ 2 ≤ 1 :=
+  mcc_formula_sq_le_one Real.sqrt eps thousand ratio C ms fm fm2 tm G W maxDen maxOv
+
+/-- a joint instance of the template-invariance theorems over ℝ: full mask on `[3]`, template `G ↦ 2·G + 7` -/
+example (C : (List Int → ℝ) → (List Int → ℝ) → ℝ) (f f2 G : List Int → ℝ) :
+    scoreFLC (ordOps Real.sqrt (1 / 1000)) C [3] f f2 (fun x => 2 * G x + 7) (fun _ => 1)
+      = scoreFLC (ordOps Real.sqrt (1 / 1000)) C [3] f f2 G (fun _ => 1) :=
+  flc_formula_template_affine_invariant Real.sqrt ⟨Real.sqrt_nonneg, fun _ hx => Real.mul_self_sqrt hx⟩ _ C [3] f f2 G _ 2 7
+    (by norm_num) (by simp [sumShape, sumRange]; norm_num)
+
+/-- a joint instance of `mcc_formula_target_scale_invariant`'s parts lemma over ℝ: target times 3 -/
+example (t : List Int) (fm fm2 tm G W : List Int → ℝ) :
+    (mccParts (ordOps Real.sqrt (1 / 1000)) (fun a b => corrSpec [3] a b t) [3] (fun x => 3 * fm x) (fun x => 3 * 3 * fm2 x) tm G W).2.2
+      = (mccParts (ordOps Real.sqrt (1 / 1000)) (fun a b => corrSpec [3] a b t) [3] fm fm2 tm G W).2.2 := by
+  rw [mcc_parts_target_scale Real.sqrt ⟨Real.sqrt_nonneg, fun _ hx => Real.mul_self_sqrt hx⟩ _ [3] t fm fm2 tm G W 3 (by norm_num)]
+
+end mcc_template_final
 
 /-- **strict improvement keeps the first best rotation**: a later submission that only ties does not replace
 the stored rotation (one voxel, values as integers ranks; from the backend's strict `>` update) -/
